@@ -74,6 +74,18 @@ pub fn child(kind: &str, n: usize) -> Result<String, String> {
             let last = m.char(w[n - 1]);
             Ok(format!("ok member={} nonmember={} states={} accepts={} empty={} witness={} union={} star={} deriv={}", member, !nonmember, states, acc, empty, wit, in_u, in_star, std::ptr::eq(d, last)))
         }
+        "re-chain" => {
+            // the scale probes (a.b^N and friends) on an ordinary stack
+            let mut rep = Report::new("deep", "");
+            super::scale::c18(&mut rep, n as u32, 0);
+            super::scale::c05(&mut rep, n as u32, 0);
+            super::scale::c19(&mut rep, n as u32, 0);
+            if rep.violation_count == 0 {
+                Ok("ok".to_string())
+            } else {
+                Ok(format!("wrong: {}", rep.violations[0].detail))
+            }
+        }
         _ => Err(format!("unknown deep kind {}", kind)),
     }
 }
